@@ -30,3 +30,16 @@ package fx
 //@   ensures implies(armT, result == ctxErr[ctx])
 //@   ensures ctxTimeout[ctx] == timeout && ctxParent[ctx] == parentCtx
 //@   loop 0: invariant true
+
+// C05 fx worker cap: every stream starts from its own fresh options (no state shared between streams), the cap option is
+// at least 1 and exactly what was asked for
+//@ func newOptions
+//@   property C05
+//@   ensures fresh(result) && result.workers == defaultWorkers && !result.unlimitedWorkers
+//@   modifies nothing
+//@   allocates
+//@ func WithWorkers closure 0
+//@   property C05
+//@   requires opts != nil
+//@   ensures opts.workers == max(workers, 1) && opts.unlimitedWorkers == old(opts.unlimitedWorkers)
+//@   modifies opts.workers
